@@ -2,7 +2,7 @@
 HOOK_COMMITS = ["d9be94b"]
 NOT_APPLICABLE = {}
 
-_PBT = "property-based testing with pgregory.net/rapid (sharded, shrunk replay files)"
+_PBT = "property-based testing with pgregory.net/rapid (sharded, shrunk replay files; call-mutate-call-again, reused-buffer and spare-capacity sequences inside each case; coverage-guided go fuzzing over the same generators in the thorough tier)"
 
 TEXT = {
     "C01": dict(
@@ -56,12 +56,12 @@ TEXT = {
         note="Trusted: the hand-written reference parser in harness/c10 as the reading of the property's grammar; rapid's generators; Go's fmt for the reference printer.",
     ),
     "C11": dict(
-        technique=_PBT + " + complete boundary grid; oracle = own score model (BLAKE2b -> b1t6 -> scalar Curl) and the literal soundness statement Score(data||nonce) >= target at targets exactly at / one ulp around 3^k/len; child-process execution for crash detection; hook-level bit-plane test",
+        technique=_PBT + " + complete boundary grid; oracle = own score model (BLAKE2b -> b1t6 -> scalar Curl) and the literal soundness statement Score(data||nonce) >= target at targets exactly at / one ulp around 3^k/len; child-process execution for crash detection; cancelled-context soundness; hook-level bit-plane test",
         level="Targets are constructed at fl(3^k/len) and its floating-point neighbours (complete grid k = 0..4/7 x len = 9..72, plus generated data/worker counts), at the float quotient +-2 ulp, random, and trivially low (down to 0, negative, subnormal) in a child process; every returned nonce is judged by the statement. Score itself is compared with an independent reference within 2 ulp. With the hook, checkStateTrits is tested on constructed 64-lane bit planes.",
         note="Trusted: harness/ref/pow, ref/curl, ref/trit, x/crypto/blake2b. Hook (optional): VerifCheckStateTrits, VerifTrailingZeros.",
     ),
     "C12": dict(
-        technique=_PBT + "; oracle = own big-integer difficulty/score model; exhaustive re-hash of every skipped nonce block (single worker) for completeness; hook-level lane test on constructed bit planes with hashes at / around the target hash",
+        technique=_PBT + "; oracle = own big-integer difficulty/score model; exhaustive re-hash of every skipped nonce block (single worker) for completeness; cancelled-context soundness; hook-level lane test on constructed bit planes with hashes at / around the target hash",
         level="Mine is run on generated (data, target) with len*target at, just above and just below powers of three; the returned nonce must score >= target (soundness) and, with one worker, no earlier 64-block may contain a nonce whose reference difficulty exceeds len*target (every skipped nonce is re-hashed). With hooks, checkStateTrits / toInt / sufficientTrailingZeros / targetHash are compared with the reference on constructed planes whose lanes have exactly s-1 trailing zeros and integer values at, just below and just above the target hash, at lane 0, 63 and random.",
         note="Trusted: harness/ref/pow on math/big. Hooks: VerifCheckStateTrits, VerifToInt, VerifSufficientTrailingZeros, VerifTargetHash; without them only the Mine/Score part runs.",
     ),
@@ -81,7 +81,7 @@ TEXT = {
         note="Trusted: the standard-library / x/crypto hash functions; the reference construction and verifier in harness/c15.",
     ),
     "C16": dict(
-        technique="exhaustive black-box syndrome enumeration (3 766 036 syndromes measured through the real Encode) + " + _PBT + " + complete weight<=2 enumeration per sampled code word; oracle = Decode must reject",
+        technique="exhaustive black-box syndrome enumeration (3 766 036 syndromes measured through the real Encode) + " + _PBT + " + complete weight<=2 enumeration per sampled code word + computed weight<=4 patterns for alternative checksum constants (Bech32m etc.); oracle = Decode must reject",
         level="The checksum's distance is settled completely at the syndrome level for every error pattern of weight <= 4 in the 89-symbol window (finite, enumerated), using only checksum differences observed through Encode plus checked linearity; the end-to-end half (Decode rejects) is sampled for weights 3-4 and enumerated completely for weights 1-2 on sampled code words.",
         note="Assumes Decode rejects exactly the non-zero syndromes (checked by C04/C05 and sampled here). Trusted: harness/ref/bech32 for building valid strings.",
     ),
@@ -101,7 +101,7 @@ TEXT = {
         note="Trusted: harness/ref/bech32, harness/ref/trit, x/crypto/blake2b.",
     ),
     "C20": dict(
-        technique=_PBT + " directly on the two permutation routines (hook) with guard-page fault injection; oracle = differential (assembly vs portable, bit for bit) + scalar truth-table Curl-P-81 per lane + lane-independence metamorphic relation; default and purego builds",
+        technique=_PBT + " directly on the two permutation routines (hook) with guard-page fault injection; oracle = differential (assembly vs portable, bit for bit) + scalar truth-table Curl-P-81 per lane + lane-independence metamorphic relation + concurrent first-use runs in fresh child processes (re-entrancy); default and purego builds",
         level="Generated bit-sliced states (valid 64-lane states, states with undefined pairs, arbitrary word patterns) are run through the build-selected transform and transformGeneric with all four buffers flush against PROT_NONE guard regions: outputs must agree bit for bit, equal 81 rounds of scalar Curl-P in every valid lane, never contain (0,0), keep lanes independent, and no access may fault or touch the canaries. States are sampled (2^93312 states cannot be enumerated); the memory-safety half covers every access of the routine as checked in because its addresses are input-independent.",
         note="Trusted: harness/ref/curl; Linux mmap/mprotect + debug.SetPanicOnFault as the out-of-bounds detector (accesses farther than 1 MiB away landing in mapped memory would be missed). Hooks: VerifTransform / VerifTransformGeneric under build tag verif; without the hook only the public sponge-level sub-check runs.",
     ),
